@@ -424,6 +424,10 @@ func (r *reader) initNodes(tr io.Reader) error {
 					if err != nil {
 						return fmt.Errorf("cannot get hardlink destination %q ==> %q (%d): %w", ent.Name, ent.LinkName, id, err)
 					}
+					if m, _ := binary.Uvarint(b.Get(bucketKeyMode)); os.FileMode(uint32(m)).IsDir() {
+						// A directory reachable from itself makes every walk of the tree endless.
+						return fmt.Errorf("%q is a hardlink to a directory %q", ent.Name, ent.LinkName)
+					}
 					numLink, _ := binary.Varint(b.Get(bucketKeyNumLink))
 					if err := putInt(b, bucketKeyNumLink, numLink+1); err != nil {
 						return fmt.Errorf("cannot put NumLink of %q ==> %q: %w", ent.Name, ent.LinkName, err)
